@@ -32,6 +32,7 @@ func init() {
 	r6Wrap("C16", r6DressedReader)
 	r6Wrap("C11", r6C11)
 	r6Wrap("C06", r6C06)
+	r6Wrap("C12", r6C12)
 	r6Wrap("C09", r6HHW)
 	r6Wrap("C10", r6HHW)
 	replayers["HHW"] = func(c *ctx, in []string) { hhw(c, in[0], unhx(in[1])) }
@@ -292,6 +293,20 @@ func r6HHW(c *ctx) {
 	for _, t := range texts {
 		for _, a := range []string{"string", "bytes", "func", "http"} {
 			hhw(c, a, []byte(t))
+		}
+	}
+}
+
+// r6-C12: the decompression reader re-used through Reset after a source it never drained (a placeholder given to
+// NewReader, an abandoned message), old and new source of different kinds (io.ByteReader or not) - so far generated for
+// C18 only; the recovery clause of C12 ("recovers the original ... for any chunking, byte-reader and plain sources")
+// covers a re-used reader as well
+func r6C12(c *ctx) {
+	for _, n := range []int{300, 70000} {
+		for kinds := 0; kinds < 4; kinds++ {
+			for _, k := range []int{0, 5} {
+				frp(c, n, k, kinds, 100+c.rng.Intn(500))
+			}
 		}
 	}
 }
